@@ -554,6 +554,7 @@ PTRef Interpret::parseTerm(const ASTNode& term, LetRecords& letRecords) {
 sstat Interpret::checkSat() {
     sstat res;
     res = main_solver->check();
+    OPENSMT_VERIF(main_solver->verifCheckEvent(res == s_True ? "sat" : (res == s_False ? "unsat" : "unknown")));
 
     if (res == s_True) {
         notify_formatted(false, "sat");
